@@ -1888,6 +1888,13 @@ Lemma int_cell_exact med scale dist x :
   int_cell_ok ((- dist - med) * scale, (- dist - med) * scale, x)%Q = (x =? integerise med scale dist).
 Proof. unfold int_cell_ok, integerise. cbn [fst snd]. rewrite Z.eqb_refl. reflexivity. Qed.
 
+(* with exact z_min, z_max (and z_max above floor z_min) the clause is exactly the definition of the code *)
+Definition offset_def (nb : Z) (zmin zmax : Q) : Z :=
+  let i_min := Qfloor zmin in - i_min * Qfloor (inject_Z nb / (zmax - inject_Z i_min)).
+Lemma shift_exact nb zmin zmax off : Qle_bool (zmax - inject_Z (Qfloor zmin)) 0 = false ->
+  shift_ok nb zmin zmin zmax zmax off = (off =? offset_def nb zmin zmax).
+Proof. intros H. unfold shift_ok, offset_def. rewrite !Z.eqb_refl, H. reflexivity. Qed.
+
 (* ================================================================== the reference's polynomials enumerate column tuples *)
 (* for query column i: (similarity value, multiplicity) of every unique target column *)
 Definition wcol (c : call) (i : nat) : list (Z * Z) :=
